@@ -378,6 +378,10 @@ def compute_next_state(state: State, event: dict) -> State:
         flow_states=[],
         flow_configs=state.flow_configs,
         rails_config=state.rails_config,
+        # The context updates of the previous event that have not been published yet
+        # as a `ContextUpdate` event are kept. This is the case when the event was
+        # directly followed by other events, e.g., the events returned by an action.
+        context_updates=dict(state.context_updates),
     )
 
     # The UID of the flow that will determine the next step
